@@ -67,7 +67,9 @@ def node_inputs(draw):
     required = draw(st.sampled_from([["time"], ["time", "id", "parent_id"], ["time", "id", "parent_id"],
                                      ["time", "seg_id"], ["time", "time"], ["time", "id", "parent_id", "seg_id"]]))
     ndim = draw(st.sampled_from([3, 4, None]))
-    return {"columns": cols, "required": required, "ndim": ndim}
+    rows = draw(st.sampled_from([0, 0, 1, 3]))
+    empty_cols = draw(st.lists(st.integers(0, 11), max_size=3, unique=True)) if rows else []
+    return {"columns": cols, "required": required, "ndim": ndim, "rows": rows, "empty_cols": empty_cols}
 
 
 @st.composite
@@ -173,7 +175,13 @@ def _probe_builder(res, inp, src):
     sub = ProbeResult()
     try:
         b = CSVTracksBuilder()
-        b.read_header(pd.DataFrame(columns=list(src)))
+        frame = pd.DataFrame(columns=list(src))
+        if inp.get("rows"):
+            # a table with rows; some columns hold no value at all (not filled in yet)
+            frame = pd.DataFrame({c: ([float("nan")] * inp["rows"] if i in inp.get("empty_cols", []) else list(range(inp["rows"])))
+                                  for i, c in enumerate(src)})
+            res.tags.append("c17:builder_frame_with_rows")
+        b.read_header(frame)
         if inp["ndim"] is not None:
             b.ndim = inp["ndim"]
             res.tags.append("c17:builder_ndim_known")
